@@ -812,6 +812,25 @@ func (c *CmpPat) match(bin *ssa.BinOp) (holds bool, ok bool) {
 	case c.Op == token.LEQ && isConstPat(c.L, 1): // 1 <= R
 		lenPat, patZero = &c.R, false
 	}
+	// a string is empty: s == "" is also spelled len(s) == 0 (and the other length spellings)
+	isEmptyStrPat := func(vp VPat) bool {
+		return vp.M(ssa.NewConst(constant.MakeString(""), types.Typ[types.String])) && !vp.M(ssa.NewConst(constant.MakeString("x"), types.Typ[types.String]))
+	}
+	if lenPat == nil && c.Op == token.EQL && (isEmptyStrPat(c.R) || isEmptyStrPat(c.L)) {
+		strPat := c.L
+		if isEmptyStrPat(c.L) {
+			strPat = c.R
+		}
+		lenPat = &VPat{Desc: "len(" + strPat.Desc + ")", M: func(v ssa.Value) bool {
+			call, ok := stripConv(v).(*ssa.Call)
+			if !ok || len(call.Call.Args) != 1 {
+				return false
+			}
+			b, isB := call.Call.Value.(*ssa.Builtin)
+			return isB && b.Name() == "len" && (strPat.M(call.Call.Args[0]) || strPat.M(stripConv(call.Call.Args[0])))
+		}}
+		patZero = true
+	}
 	if lenPat != nil {
 		isLen := func(v ssa.Value) bool {
 			call, ok := stripConv(v).(*ssa.Call)
